@@ -28,7 +28,7 @@ class ArgsFormat(object):
         if isinstance(elements, ArgsFormatBuilder):
             builder = elements
         else:
-            builder = self._create_builder_for_elements(elements)
+            builder = self._create_builder_for_elements(elements, base_format)
 
         if base_format is None:
             base_format = builder.base_format
